@@ -69,7 +69,7 @@ int main(int argc, char **argv) {
             for (int64_t i = 0; i < cv.n; i++) ev_boundary(cv.v[i]);
             cv_free(&cv);
             /* dense walk along the icosahedron edges: only the cell's own boundary */
-            if (res >= 4) { CellVec dv = {0}; cv_seam_cells(&dv, res, quick ? ((res % 2) ? 1500 : 150) : 4000);   /* distortion vertices exist only at odd resolutions */ for (int64_t i = 0; i < dv.n; i++) if (i == 0 || dv.v[i] != dv.v[i - 1]) ev_boundary_lite(dv.v[i]); cv_free(&dv); }
+            if (res >= 4) { CellVec dv = {0}; cv_seam_cells(&dv, res, quick ? ((res % 2) ? 500 : 100) : 4000);   /* distortion vertices exist only at odd resolutions */ for (int64_t i = 0; i < dv.n; i++) if (i == 0 || dv.v[i] != dv.v[i - 1]) ev_boundary_lite(dv.v[i]); cv_free(&dv); }
         }
         /* chains: the cells containing one point at successive resolutions (the 20 face centres, the 12 icosahedron vertices, random
            points), walked downwards and upwards; before each observed call the library is primed with a call on a related cell
